@@ -27,6 +27,9 @@ MAY_PANIC_EXTERN = [
     ("arith", re.compile(r"^core::num::<impl " + _INT + r">::(?:pow|abs|next_power_of_two|div_euclid|rem_euclid|ilog\w*|isqrt|div_ceil|next_multiple_of|strict_\w+|abs_diff_never)$")),
     ("arith", re.compile(r"as std::ops::" + _OPS + r"(?:Assign)?(?:<.*>)?>::\w+$")),  # Duration, Instant and friends
     ("index", re.compile(r"as std::ops::Index(?:Mut)?<.*>>::index(?:_mut)?$")),
+    ("index", re.compile(r"<impl std::ops::Index(?:Mut)?<.*> for .*>::index(?:_mut)?$")),
+    ("index", re.compile(r"^bitvec::slice::BitSlice::<T, O>::(?:set|replace|swap|split_at|split_at_mut|copy_within|rotate_left|rotate_right|copy_from_bitslice|clone_from_bitslice)$")),
+    ("arith", re.compile(r"<impl std::ops::" + _OPS + r"(?:Assign)?(?:<.*>)? for .*>::\w+$")),
     ("index", re.compile(r"^core::slice::<impl \[T\]>::(?:copy_from_slice|clone_from_slice|split_at|split_at_mut|swap|chunks\w*|rchunks\w*|windows|rotate_left|rotate_right|copy_within|select_nth_unstable\w*|fill_with_never)$")),
     ("index", re.compile(r"^core::str::<impl str>::split_at(?:_mut)?$")),
     ("index", re.compile(r"(?:^|::)vec::Vec::<T, A>::(?:remove|insert|swap_remove|split_off|drain|splice|extend_from_within)$")),
